@@ -55,6 +55,36 @@ PROPS = {
         profiles=dict(quick=[('lifecycle', 15, 1), ('lifecyclebfs', 300, 1)], thorough=[('lifecycle', 120, 8), ('lifecyclebfs', 3000, 1), ('life', 150, 4), ('policy', 1000, 1)]),
         explanation='silent states and wire armour as theorems (Props.C03); Go oracle searches every wire output (raw, base64-decoded, reassembled fragments) for every text sent while encrypted / finished / under required encryption over lifecycle histories under random policy sets',
         assumptions=['secrecy of AES-CTR and of the DH-derived keys is assumed (ideal crypto)', 'noninterference of the other message fields is checked by the oracle, not proved']),
+    'C01': dict(
+        module='Props.C01', level='proof',
+        profiles=dict(quick=[('ake', 120, 1)], thorough=[('ake', 800, 8), ('life', 150, 4)]),
+        explanation='decision-logic theorems over all states and byte strings (Props.C01: the only paths to the encrypted state, the complete list of checks a finishing step implies, the values reported afterwards); tied to ake.go/auth_state_machine.go by whole-handshake differential runs under an active attacker; Go oracle after every delivery: an encrypted conversation reports the key of a party that derived the same SSID; agreement, complementary halves, mutual readability',
+        assumptions=['unforgeability of DSA, HMAC-SHA256 and collision resistance of SHA-256 for the cross-session / impersonation part (ideal crypto, DESIGN §6)', CRYPTO_ASSUME]),
+    'C02': dict(
+        module='Props.C02', level='proof',
+        profiles=dict(quick=[('reject', 80, 1), ('sched', 6, 1)], thorough=[('reject', 600, 8), ('life', 150, 4)]),
+        explanation='guard theorem for every state and byte string (Props.C02: anything delivered or acted upon passed parse, key-window, MAC over exactly the received authenticated bytes, and counter checks; every failure case returns nothing and changes nothing); Go oracle injects mutated, truncated, forged and replayed data messages into live sessions at random ratchet positions',
+        assumptions=['a MAC valid under an undisclosed key was produced by the peer (HMAC unforgeability, ideal crypto)', CRYPTO_ASSUME]),
+    'C06': dict(
+        module='Props.C06', level='proof',
+        profiles=dict(quick=[('reject', 120, 1)], thorough=[('reject', 800, 8), ('tags', 100, 2)]),
+        explanation='exact final state of every rejection case of a data message, of foreign-instance and other-version messages (Props.C06: state unchanged, so every continuation is identical); for rejected AKE traffic the twin-run Go oracle runs the same genuine traffic with and without the rejected message and compares all plaintexts, errors, events and IsEncrypted values',
+        assumptions=['behavioural equivalence after rejected AKE messages is decided by the twin-run oracle, not a theorem', 'known finding: version commit by a rejected first message']),
+    'C11': dict(
+        module='Props.C11', level='proof',
+        profiles=dict(quick=[('smp', 25, 1)], thorough=[('smp', 200, 8)]),
+        explanation='algebraic theorems for all exponents and secrets (Props.C11: honest proofs verify, equal secrets succeed on both sides, different secrets fail on both sides given p, q prime); model tied to smp*.go by differential runs with real 1536-bit arithmetic; Go oracle over honest runs (secret pairs incl. empty/long/binary/one bit apart, question, either initiator, back to back, traffic in between, both versions) and a relay between two separately keyed sessions',
+        assumptions=['Nat.Prime p and Nat.Prime q are hypotheses of c11_unequal_fail (no primality certificate available offline)', 'binding of the hashed secret to fingerprints and SSID relies on collision resistance of SHA-256']),
+    'C12': dict(
+        module='Props.C12', level='proof',
+        profiles=dict(quick=[('smp', 40, 1)], thorough=[('smp', 300, 8), ('parse', 200, 2)]),
+        explanation='success-event guard for every message and state, no-panic theorems after the group checks, state-machine invariant (Props.C12); Go oracle sends SMP messages authenticated by the genuine peer with one field replaced by a boundary value / perturbed / miscounted / truncated, plus user calls out of sequence, and requires no success, no panic, and a successful honest run afterwards',
+        assumptions=['soundness of the zero-knowledge proofs against non-degenerate cheating is computational: covered by generated inputs only', 'known finding: OTRv2 accepts degenerate group elements (test-pinned)']),
+    'C13': dict(
+        module='Props.C13', level='proof',
+        profiles=dict(quick=[('parse', 150, 1), ('life', 25, 1)], thorough=[('parse', 1500, 8), ('life', 300, 8), ('tags', 100, 2), ('frag', 40, 2)]),
+        explanation='total model with explicit panic outcomes; theorems: complete list of panic sites reachable from a data message, no panic under the session invariants, allocation bound of ExtractMPIs (Props.C13); Go harness runs every public parser and Receive in every conversation state on structured/mutated/raw input under recover with time and allocation measurement, a usability probe afterwards, and fails or shortens the k-th randomness read for every k',
+        assumptions=['s-expression / key-file reader: see the keyfile profile (DESIGN §7 C13)', 'Go runtime behaviour (stack, GC) is observed, not modelled']),
 }
 
 # properties not claimed yet (kept current; each is moved into PROPS when its check exists)
